@@ -418,8 +418,20 @@ func c19Ops() []*c19Op {
 		if _, err := s.NumMutationsComparedToReferenceSequence(e.in.Alphabet(), ref); err != nil {
 			e.failed = true
 		}
-		if _, err := s.ListMutationsComparedToReferenceSequence(e.in.Alphabet(), ref, c19B(a[2])); err != nil {
+		lst, err := s.ListMutationsComparedToReferenceSequence(e.in.Alphabet(), ref, c19B(a[2]))
+		if err != nil {
 			e.failed = true
+		}
+		// the returned list belongs to the caller ("followed by arbitrary in-place mutations of the returned
+		// object"): every byte of every Alt is overwritten and every Alt is extended inside its capacity
+		for i := range lst {
+			for k := range lst[i].Alt {
+				lst[i].Alt[k] = '#'
+			}
+			full := lst[i].Alt[:cap(lst[i].Alt)]
+			for k := range full {
+				full[k] = '#'
+			}
 		}
 	})
 
